@@ -13,18 +13,18 @@ Definition sym_cls (a : gast) (pl : play) (k : nat) (s : asym) : Prop :=
   end.
 
 
-Lemma rl_step_sym : forall fa src pre pl k s rest i f n a g e rn syms prec act pstart pend,
+Lemma rl_step_sym : forall fa fp src pre pl k s rest i f n a g e rn syms prec act pstart pend,
   src = pre ++ print_sym pl k s ++ pg_sym pl k ++ rest -> i = byte_len pre ->
   is_qname (sym_q pl k s) (sym_name s) ->
   tok_follow (sym_q pl k s) (pg_sym pl k ++ rest) ->
   layout_text (pg_sym pl k) -> item_start rest -> sym_cls a pl k s ->
-  rule_loop true fa src (byte_len src) (fuel_for src) (S f) (mkSt n a g e) rn i syms prec act pstart pend
-  = rule_loop true fa src (byte_len src) (fuel_for src) f
+  rule_loop true fa fp src (byte_len src) (fuel_for src) (S f) (mkSt n a g e) rn i syms prec act pstart pend
+  = rule_loop true fa fp src (byte_len src) (fuel_for src) f
       (mkSt (n + count_nl (pg_sym pl k))
             (match sym_q pl k s with QBare => a | _ => tokens_insert a (sym_name s) (sym_span_at pl k i s) end) g e)
       rn (sym_next pl k i s) (syms ++ [sym_at pl k i s]) prec act pstart (Some (i + byte_len (print_sym pl k s))).
 Proof.
-  intros fa src pre pl k s rest i f n a g e rn syms prec act pstart pend Hs Hi Hq Hf Hl Hr Hc.
+  intros fa fp src pre pl k s rest i f n a g e rn syms prec act pstart pend Hs Hi Hq Hf Hl Hr Hc.
   unfold print_sym in *.
   destruct (print_tok_hd _ _ Hq) as [c [t [Et Hc0]]].
   assert (Hs0 : src = pre ++ c :: (t ++ pg_sym pl k ++ rest)) by (rewrite Hs, Et; lsolve).
@@ -78,19 +78,19 @@ Qed.
 Lemma kw_prec_len : byte_len kw_prec = 5. Proof. reflexivity. Qed.
 Lemma kw_empty_len : byte_len kw_empty = 6. Proof. reflexivity. Qed.
 
-Lemma rl_step_prec : forall fa src pre pl t rest i f n a g e rn syms prec act pstart pend,
+Lemma rl_step_prec : forall fa fp src pre pl t rest i f n a g e rn syms prec act pstart pend,
   src = pre ++ kw_prec ++ pg_prec1 pl ++ print_tok (pq_prec pl) t ++ pg_prec2 pl ++ rest -> i = byte_len pre ->
   is_qname (pq_prec pl) t -> tok_follow (pq_prec pl) (pg_prec2 pl ++ rest) ->
   layout_text (pg_prec1 pl) -> layout_text (pg_prec2 pl) -> item_start rest ->
-  rule_loop true fa src (byte_len src) (fuel_for src) (S f) (mkSt n a g e) rn i syms prec act pstart pend
-  = rule_loop true fa src (byte_len src) (fuel_for src) f
+  rule_loop true fa fp src (byte_len src) (fuel_for src) (S f) (mkSt n a g e) rn i syms prec act pstart pend
+  = rule_loop true fa fp src (byte_len src) (fuel_for src) f
       (mkSt (n + count_nl (pg_prec1 pl) + count_nl (pg_prec2 pl))
             (tokens_insert a t (tok_span (pq_prec pl) (i + 5 + byte_len (pg_prec1 pl)) t)) g e)
       rn (i + 5 + byte_len (pg_prec1 pl) + byte_len (print_tok (pq_prec pl) t) + byte_len (pg_prec2 pl))
       syms (Some t) act pstart
       (Some (i + 5 + byte_len (pg_prec1 pl) + byte_len (print_tok (pq_prec pl) t))).
 Proof.
-  intros fa src pre pl t rest i f n a g e rn syms prec act pstart pend Hs Hi Hq Hf Hl1 Hl2 Hr.
+  intros fa fp src pre pl t rest i f n a g e rn syms prec act pstart pend Hs Hi Hq Hf Hl1 Hl2 Hr.
   set (tk := print_tok (pq_prec pl) t) in *.
   assert (Hs0 : src = pre ++ 37%N :: ([112; 114; 101; 99]%N ++ pg_prec1 pl ++ tk ++ pg_prec2 pl ++ rest))
     by (rewrite Hs; reflexivity).
@@ -122,15 +122,15 @@ Definition empty_follow (rest : str) : Prop :=
 Lemma empty_follow_item_start : forall rest, empty_follow rest -> item_start rest.
 Proof. intros rest [r [H|[H|[H|H]]]]; subst rest; reflexivity. Qed.
 
-Lemma rl_step_empty : forall fa src pre pl rest i f n a g e rn prec act pstart pend,
+Lemma rl_step_empty : forall fa fp src pre pl rest i f n a g e rn prec act pstart pend,
   src = pre ++ kw_empty ++ pg_empty pl ++ rest -> i = byte_len pre ->
   layout_text (pg_empty pl) -> empty_follow rest ->
-  rule_loop true fa src (byte_len src) (fuel_for src) (S f) (mkSt n a g e) rn i [] prec act pstart pend
-  = rule_loop true fa src (byte_len src) (fuel_for src) f
+  rule_loop true fa fp src (byte_len src) (fuel_for src) (S f) (mkSt n a g e) rn i [] prec act pstart pend
+  = rule_loop true fa fp src (byte_len src) (fuel_for src) f
       (mkSt (n + count_nl (pg_empty pl)) a g e)
       rn (i + 6 + byte_len (pg_empty pl)) [] prec act pstart (Some (i + 6)).
 Proof.
-  intros fa src pre pl rest i f n a g e rn prec act pstart pend Hs Hi Hl Hfo.
+  intros fa fp src pre pl rest i f n a g e rn prec act pstart pend Hs Hi Hl Hfo.
   pose proof (empty_follow_item_start _ Hfo) as Hr.
   assert (Hs0 : src = pre ++ 37%N :: ([101; 109; 112; 116; 121]%N ++ pg_empty pl ++ rest))
     by (rewrite Hs; reflexivity).
@@ -176,16 +176,16 @@ Proof.
   rewrite add_prod_done by exact Hr. cbn [lifto sbind]. stn. reflexivity.
 Qed.
 
-Lemma rl_step_bar : forall fa src pre gt rest i f n a g e rn syms prec act pstart pend,
+Lemma rl_step_bar : forall fa fp src pre gt rest i f n a g e rn syms prec act pstart pend,
   src = pre ++ c_bar :: gt ++ rest -> i = byte_len pre ->
   layout_text gt -> item_start rest ->
   has_rule a rn = true -> pstart <= pend_or pend i ->
-  rule_loop true fa src (byte_len src) (fuel_for src) (S f) (mkSt n a g e) rn i syms prec act pstart pend
-  = rule_loop true fa src (byte_len src) (fuel_for src) f
+  rule_loop true fa fp src (byte_len src) (fuel_for src) (S f) (mkSt n a g e) rn i syms prec act pstart pend
+  = rule_loop true fa fp src (byte_len src) (fuel_for src) f
       (mkSt (n + count_nl gt) (add_prod_t a rn syms prec act (pstart, pend_or pend i)) g e)
       rn (i + 1 + byte_len gt) [] None None (i + 1 + byte_len gt) None.
 Proof.
-  intros fa src pre gt rest i f n a g e rn syms prec act pstart pend Hs Hi Hl Hr Hru Hle.
+  intros fa fp src pre gt rest i f n a g e rn syms prec act pstart pend Hs Hi Hl Hr Hru Hle.
   cbn [rule_loop].
   rewrite (lt_len_at _ _ _ _ _ Hs Hi). cbn [negb].
   look1 Hs Hi.
@@ -196,13 +196,13 @@ Proof.
   cbn [sbind]. change (byte_len kw_bar) with 1. reflexivity.
 Qed.
 
-Lemma rl_step_semi : forall fa src pre rest i f n a g e rn syms prec act pstart pend,
+Lemma rl_step_semi : forall fa fp src pre rest i f n a g e rn syms prec act pstart pend,
   src = pre ++ c_semi :: rest -> i = byte_len pre ->
   has_rule a rn = true -> pstart <= pend_or pend i ->
-  rule_loop true fa src (byte_len src) (fuel_for src) (S f) (mkSt n a g e) rn i syms prec act pstart pend
+  rule_loop true fa fp src (byte_len src) (fuel_for src) (S f) (mkSt n a g e) rn i syms prec act pstart pend
   = Done (mkSt n (add_prod_t a rn syms prec act (pstart, pend_or pend i)) g e, Ok (i + 1)).
 Proof.
-  intros fa src pre rest i f n a g e rn syms prec act pstart pend Hs Hi Hru Hle.
+  intros fa fp src pre rest i f n a g e rn syms prec act pstart pend Hs Hi Hru Hle.
   cbn [rule_loop].
   rewrite (lt_len_at _ _ _ _ _ Hs Hi). cbn [negb].
   do 2 look1 Hs Hi.
@@ -215,16 +215,16 @@ Definition term_start (rest : str) : Prop := exists r, rest = c_bar :: r \/ rest
 Lemma term_item_start : forall rest, term_start rest -> item_start rest.
 Proof. intros rest [r [H|H]]; subst rest; reflexivity. Qed.
 
-Lemma rl_step_action : forall fa src pre pl t rest i f n a g e rn syms prec act pstart pend,
+Lemma rl_step_action : forall fa fp src pre pl t rest i f n a g e rn syms prec act pstart pend,
   src = pre ++ c_lbrace :: (p_pad1 pl ++ t ++ p_pad2 pl) ++ c_rbrace :: pg_act pl ++ rest -> i = byte_len pre ->
   wf_action t -> wf_pad (p_pad1 pl) -> wf_pad (p_pad2 pl) -> layout_text (pg_act pl) -> term_start rest ->
   exists n',
-  rule_loop true fa src (byte_len src) (fuel_for src) (S f) (mkSt n a g e) rn i syms prec act pstart pend
-  = rule_loop true fa src (byte_len src) (fuel_for src) f (mkSt n' a g e)
+  rule_loop true fa fp src (byte_len src) (fuel_for src) (S f) (mkSt n a g e) rn i syms prec act pstart pend
+  = rule_loop true fa fp src (byte_len src) (fuel_for src) f (mkSt n' a g e)
       rn (i + 1 + byte_len (p_pad1 pl ++ t ++ p_pad2 pl) + 1 + byte_len (pg_act pl))
-      syms prec (Some (t, act_span fa pl i t)) pstart (Some i).
+      syms prec (Some (t, act_span fa pl i t)) pstart (brace_pend fp pend i).
 Proof.
-  intros fa src pre pl t rest i f n a g e rn syms prec act pstart pend Hs Hi Ha Hp1 Hp2 Hl Ht.
+  intros fa fp src pre pl t rest i f n a g e rn syms prec act pstart pend Hs Hi Ha Hp1 Hp2 Hl Ht.
   pose proof (term_item_start _ Ht) as Hr.
   set (body := p_pad1 pl ++ t ++ p_pad2 pl) in *.
   eexists.
@@ -288,16 +288,16 @@ Proof.
   - apply not_starting_layout; [exact tok_cont_first_ok | exact Hl | discriminate].
 Qed.
 
-Lemma rl_syms : forall fa D pl ss k src pre rest i f n a g e rn syms prec act pstart pend,
+Lemma rl_syms : forall fa fp D pl ss k src pre rest i f n a g e rn syms prec act pstart pend,
   src = pre ++ print_syms pl k ss ++ rest -> i = byte_len pre ->
   wf_syms D pl k ss -> tok_inv D a ->
   item_start rest -> not_starting tok_cont rest ->
   exists n',
-  rule_loop true fa src (byte_len src) (fuel_for src) (List.length ss + f) (mkSt n a g e) rn i syms prec act pstart pend
-  = rule_loop true fa src (byte_len src) (fuel_for src) f (mkSt n' (syms_ins pl k i ss a) g e) rn
+  rule_loop true fa fp src (byte_len src) (fuel_for src) (List.length ss + f) (mkSt n a g e) rn i syms prec act pstart pend
+  = rule_loop true fa fp src (byte_len src) (fuel_for src) f (mkSt n' (syms_ins pl k i ss a) g e) rn
       (i + byte_len (print_syms pl k ss)) (syms ++ syms_out pl k i ss) prec act pstart (syms_pend pl k i ss pend).
 Proof.
-  intros fa D pl ss. induction ss as [|s ss IH];
+  intros fa fp D pl ss. induction ss as [|s ss IH];
     intros k src pre rest i f n a g e rn syms prec act pstart pend Hs Hi Hw Hinv Hr Hnt.
   - exists n. cbn [List.length Nat.add print_syms byte_len syms_ins syms_out syms_pend].
     rewrite Nat.add_0_r, app_nil_r. reflexivity.
@@ -305,7 +305,7 @@ Proof.
     pose proof Hw as Hw0. cbn [wf_syms] in Hw. destruct Hw as [Hws [Hl [_ Hw']]].
     assert (Hs1 : src = pre ++ print_sym pl k s ++ pg_sym pl k ++ (print_syms pl (S k) ss ++ rest))
       by (rewrite Hs; cbn [print_syms]; lsolve).
-    rewrite (rl_step_sym fa _ _ _ _ _ _ _ _ n a g e rn syms prec act pstart pend Hs1 Hi
+    rewrite (rl_step_sym fa fp _ _ _ _ _ _ _ _ n a g e rn syms prec act pstart pend Hs1 Hi
                (proj1 Hws) (syms_follow _ _ _ _ _ _ Hw0 Hnt) Hl
                (print_syms_item_start _ _ _ _ _ Hw' Hr) (wf_sym_cls _ _ _ _ _ Hws Hinv)).
     assert (Hs2 : src = (pre ++ print_sym pl k s ++ pg_sym pl k) ++ print_syms pl (S k) ss ++ rest)
@@ -350,23 +350,23 @@ Proof.
   - apply action_punct. exact Ht.
 Qed.
 
-Lemma stage_empty : forall fa src pre (b : bool) pl rest i f n a g e rn prec act pstart pend,
+Lemma stage_empty : forall fa fp src pre (b : bool) pl rest i f n a g e rn prec act pstart pend,
   src = pre ++ (if b then kw_empty ++ pg_empty pl else []) ++ rest -> i = byte_len pre ->
   layout_text (pg_empty pl) -> (b = true -> empty_follow rest) ->
   exists n',
-  rule_loop true fa src (byte_len src) (fuel_for src) ((if b then 1 else 0) + f) (mkSt n a g e) rn i [] prec act pstart pend
-  = rule_loop true fa src (byte_len src) (fuel_for src) f (mkSt n' a g e) rn
+  rule_loop true fa fp src (byte_len src) (fuel_for src) ((if b then 1 else 0) + f) (mkSt n a g e) rn i [] prec act pstart pend
+  = rule_loop true fa fp src (byte_len src) (fuel_for src) f (mkSt n' a g e) rn
       (i + byte_len (if b then kw_empty ++ pg_empty pl else [])) [] prec act pstart
       (if b then Some (i + byte_len kw_empty) else pend).
 Proof.
-  intros fa src pre b pl rest i f n a g e rn prec act pstart pend Hs Hi Hl Hf. destruct b.
+  intros fa fp src pre b pl rest i f n a g e rn prec act pstart pend Hs Hi Hl Hf. destruct b.
   - eexists. cbn [Nat.add]. rewrite <- app_assoc in Hs.
-    rewrite (rl_step_empty fa _ _ _ _ _ _ n a g e rn prec act pstart pend Hs Hi Hl (Hf eq_refl)).
+    rewrite (rl_step_empty fa fp _ _ _ _ _ _ n a g e rn prec act pstart pend Hs Hi Hl (Hf eq_refl)).
     rewrite byte_len_app, kw_empty_len. rewrite Nat.add_assoc. reflexivity.
   - exists n. cbn [Nat.add byte_len]. rewrite Nat.add_0_r. reflexivity.
 Qed.
 
-Lemma stage_prec : forall fa src pre pl (o : option str) rest i f n a g e rn syms act pstart pend,
+Lemma stage_prec : forall fa fp src pre pl (o : option str) rest i f n a g e rn syms act pstart pend,
   src = pre ++ (match o with Some t => kw_prec ++ pg_prec1 pl ++ print_tok (pq_prec pl) t ++ pg_prec2 pl | None => [] end)
             ++ rest -> i = byte_len pre ->
   match o with
@@ -375,9 +375,9 @@ Lemma stage_prec : forall fa src pre pl (o : option str) rest i f n a g e rn sym
   end ->
   item_start rest -> not_starting tok_cont rest ->
   exists n',
-  rule_loop true fa src (byte_len src) (fuel_for src) ((match o with Some _ => 1 | None => 0 end) + f)
+  rule_loop true fa fp src (byte_len src) (fuel_for src) ((match o with Some _ => 1 | None => 0 end) + f)
             (mkSt n a g e) rn i syms None act pstart pend
-  = rule_loop true fa src (byte_len src) (fuel_for src) f
+  = rule_loop true fa fp src (byte_len src) (fuel_for src) f
       (mkSt n' (match o with
                 | Some t => tokens_insert a t (tok_span (pq_prec pl) (i + byte_len kw_prec + byte_len (pg_prec1 pl)) t)
                 | None => a
@@ -389,19 +389,19 @@ Lemma stage_prec : forall fa src pre pl (o : option str) rest i f n a g e rn sym
        | None => pend
        end).
 Proof.
-  intros fa src pre pl o rest i f n a g e rn syms act pstart pend Hs Hi Hw Hr Hnt. destruct o as [t|].
+  intros fa fp src pre pl o rest i f n a g e rn syms act pstart pend Hs Hi Hw Hr Hnt. destruct o as [t|].
   - destruct Hw as [Hq [Hl1 Hl2]]. eexists. cbn [Nat.add].
     assert (Hs' : src = pre ++ kw_prec ++ pg_prec1 pl ++ print_tok (pq_prec pl) t ++ pg_prec2 pl ++ rest)
       by (rewrite Hs; lsolve).
     assert (Hf : tok_follow (pq_prec pl) (pg_prec2 pl ++ rest)).
     { destruct (pq_prec pl); cbn [tok_follow]; try exact I.
       apply not_starting_gap; [exact tok_cont_first_ok | exact Hl2 | exact Hnt]. }
-    rewrite (rl_step_prec fa _ _ _ _ _ _ _ n a g e rn syms None act pstart pend Hs' Hi Hq Hf Hl1 Hl2 Hr).
+    rewrite (rl_step_prec fa fp _ _ _ _ _ _ _ n a g e rn syms None act pstart pend Hs' Hi Hq Hf Hl1 Hl2 Hr).
     rewrite !byte_len_app, kw_prec_len. f_equal. lia.
   - exists n. cbn [Nat.add byte_len]. rewrite Nat.add_0_r. reflexivity.
 Qed.
 
-Lemma stage_action : forall fa src pre pl (o : option str) rest i f n a g e rn syms prec pstart pend,
+Lemma stage_action : forall fa fp src pre pl (o : option str) rest i f n a g e rn syms prec pstart pend,
   src = pre ++ (match o with Some t => c_lbrace :: (p_pad1 pl ++ t ++ p_pad2 pl) ++ c_rbrace :: pg_act pl | None => [] end)
             ++ rest -> i = byte_len pre ->
   match o with
@@ -410,18 +410,18 @@ Lemma stage_action : forall fa src pre pl (o : option str) rest i f n a g e rn s
   end ->
   term_start rest ->
   exists n',
-  rule_loop true fa src (byte_len src) (fuel_for src) ((match o with Some _ => 1 | None => 0 end) + f)
+  rule_loop true fa fp src (byte_len src) (fuel_for src) ((match o with Some _ => 1 | None => 0 end) + f)
             (mkSt n a g e) rn i syms prec None pstart pend
-  = rule_loop true fa src (byte_len src) (fuel_for src) f (mkSt n' a g e) rn
+  = rule_loop true fa fp src (byte_len src) (fuel_for src) f (mkSt n' a g e) rn
       (i + byte_len (match o with Some t => c_lbrace :: (p_pad1 pl ++ t ++ p_pad2 pl) ++ c_rbrace :: pg_act pl | None => [] end))
       syms prec (match o with Some t => Some (t, act_span fa pl i t) | None => None end) pstart
-      (match o with Some _ => Some i | None => pend end).
+      (match o with Some _ => brace_pend fp pend i | None => pend end).
 Proof.
-  intros fa src pre pl o rest i f n a g e rn syms prec pstart pend Hs Hi Hw Ht. destruct o as [t|].
+  intros fa fp src pre pl o rest i f n a g e rn syms prec pstart pend Hs Hi Hw Ht. destruct o as [t|].
   - destruct Hw as [Ha [Hp1 [Hp2 Hl]]]. cbn [Nat.add].
     assert (Hs' : src = pre ++ c_lbrace :: (p_pad1 pl ++ t ++ p_pad2 pl) ++ c_rbrace :: pg_act pl ++ rest)
       by (rewrite Hs; lsolve).
-    destruct (rl_step_action fa _ _ _ _ _ _ f n a g e rn syms prec None pstart pend Hs' Hi Ha Hp1 Hp2 Hl Ht)
+    destruct (rl_step_action fa fp _ _ _ _ _ _ f n a g e rn syms prec None pstart pend Hs' Hi Ha Hp1 Hp2 Hl Ht)
       as [n' Hn'].
     exists n'. rewrite Hn'. f_equal. cbn [byte_len]. rewrite ?byte_len_app. cbn [byte_len].
     change (len_utf8 c_lbrace) with 1. change (len_utf8 c_rbrace) with 1. rewrite ?byte_len_app. lia.
@@ -442,10 +442,10 @@ Definition prod_pre_ast (pl : play) (i : nat) (p : aprod) (a : gast) : gast :=
 Definition prod_act (fa : bool) (pl : play) (i : nat) (p : aprod) : option (str * span) :=
   match ap_action p with Some t => Some (t, act_span fa pl (prod_o2 pl i p) t) | None => None end.
 
-Lemma prod_eff_unfold : forall fa pl rn i p a,
-  prod_eff fa pl rn i p a
+Lemma prod_eff_unfold : forall fa fp pl rn i p a,
+  prod_eff fa fp pl rn i p a
   = add_prod_t (prod_pre_ast pl i p a) rn (syms_out pl 0 (prod_o0 pl i p) (ap_syms p)) (ap_prec p)
-      (prod_act fa pl i p) (i, pend_or (prod_pend pl i p) (prod_o3 pl i p)).
+      (prod_act fa pl i p) (i, pend_or (prod_pend fp pl i p) (prod_o3 pl i p)).
 Proof. reflexivity. Qed.
 
 Lemma uses_empty_nil : forall pl p, uses_empty pl p = true -> ap_syms p = [].
@@ -465,16 +465,16 @@ Proof.
     + cbn [app]. destruct Ht as [r [H|H]]; subst rest; eexists; [left | right; left]; reflexivity.
 Qed.
 
-Lemma rl_prod_body : forall fa D pl p src pre rest i f n a g e rn,
+Lemma rl_prod_body : forall fa fp D pl p src pre rest i f n a g e rn,
   src = pre ++ print_prod pl p ++ rest -> i = byte_len pre ->
   wf_prod D pl p -> tok_inv D a -> term_start rest ->
   exists n',
-  rule_loop true fa src (byte_len src) (fuel_for src) (body_steps pl p + f) (mkSt n a g e) rn i [] None None i None
-  = rule_loop true fa src (byte_len src) (fuel_for src) f (mkSt n' (prod_pre_ast pl i p a) g e) rn
+  rule_loop true fa fp src (byte_len src) (fuel_for src) (body_steps pl p + f) (mkSt n a g e) rn i [] None None i None
+  = rule_loop true fa fp src (byte_len src) (fuel_for src) f (mkSt n' (prod_pre_ast pl i p a) g e) rn
       (prod_o3 pl i p) (syms_out pl 0 (prod_o0 pl i p) (ap_syms p)) (ap_prec p) (prod_act fa pl i p) i
-      (prod_pend pl i p).
+      (prod_pend fp pl i p).
 Proof.
-  intros fa D pl p src pre rest i f n a g e rn Hs Hi Hw Hinv Ht.
+  intros fa fp D pl p src pre rest i f n a g e rn Hs Hi Hw Hinv Ht.
   destruct Hw as [Hws [Hwp [Hwa [Hle Hlt]]]].
   unfold print_prod in Hs. unfold body_steps.
   set (TE := print_empty pl p) in *. set (TS := print_syms pl 0 (ap_syms p)) in *.
@@ -483,7 +483,7 @@ Proof.
   pose proof (action_punct pl p rest Ht) as Hpa. fold TA in Hpa.
   (* %empty *)
   assert (Hs1 : src = pre ++ TE ++ (TS ++ TP ++ TA ++ rest)) by (rewrite Hs; lsolve).
-  destruct (stage_empty fa src pre (uses_empty pl p) pl (TS ++ TP ++ TA ++ rest) i
+  destruct (stage_empty fa fp src pre (uses_empty pl p) pl (TS ++ TP ++ TA ++ rest) i
               (List.length (ap_syms p) + (opt1 (ap_prec p) + (opt1 (ap_action p) + f))) n a g e rn None None i None
               Hs1 Hi Hle (fun Hu => empty_follow_body pl p rest (uses_empty_nil pl p Hu) Ht)) as [n1 H1].
   rewrite <- !Nat.add_assoc. rewrite H1. clear H1.
@@ -491,7 +491,7 @@ Proof.
   (* symbols *)
   assert (Hs2 : src = (pre ++ TE) ++ TS ++ (TP ++ TA ++ rest)) by (rewrite Hs; lsolve).
   assert (Hi2 : i + byte_len TE = byte_len (pre ++ TE)) by (subst i; rewrite byte_len_app; reflexivity).
-  destruct (rl_syms fa D pl (ap_syms p) 0 src _ _ _ (opt1 (ap_prec p) + (opt1 (ap_action p) + f)) n1 a g e rn []
+  destruct (rl_syms fa fp D pl (ap_syms p) 0 src _ _ _ (opt1 (ap_prec p) + (opt1 (ap_action p) + f)) n1 a g e rn []
               None None i (if uses_empty pl p then Some (i + byte_len kw_empty) else None)
               Hs2 Hi2 Hws Hinv (punct_item_start _ Hpp) (punct_not_tok_cont _ Hpp)) as [n2 H2].
   rewrite H2. clear H2. cbn [app]. fold TS.
@@ -500,7 +500,7 @@ Proof.
   assert (Hi3 : i + byte_len TE + byte_len TS = byte_len ((pre ++ TE) ++ TS))
     by (subst i; rewrite !byte_len_app; reflexivity).
   unfold TP, print_prec in Hs3.
-  destruct (stage_prec fa src _ pl (ap_prec p) _ _ (opt1 (ap_action p) + f) n2
+  destruct (stage_prec fa fp src _ pl (ap_prec p) _ _ (opt1 (ap_action p) + f) n2
               (syms_ins pl 0 (i + byte_len TE) (ap_syms p) a) g e rn
               (syms_out pl 0 (i + byte_len TE) (ap_syms p)) None i
               (syms_pend pl 0 (i + byte_len TE) (ap_syms p) (if uses_empty pl p then Some (i + byte_len kw_empty) else None))
@@ -512,7 +512,7 @@ Proof.
   assert (Hi4 : i + byte_len TE + byte_len TS + byte_len TP = byte_len (((pre ++ TE) ++ TS) ++ TP))
     by (subst i; rewrite !byte_len_app; reflexivity).
   unfold TA, print_action in Hs4.
-  destruct (stage_action fa src _ pl (ap_action p) _ _ f n3
+  destruct (stage_action fa fp src _ pl (ap_action p) _ _ f n3
               (match ap_prec p with
                | Some t => tokens_insert (syms_ins pl 0 (i + byte_len TE) (ap_syms p) a) t
                              (tok_span (pq_prec pl) (i + byte_len TE + byte_len TS + byte_len kw_prec + byte_len (pg_prec1 pl)) t)
@@ -545,20 +545,31 @@ Proof.
     + intros y Hy. injection Hy as <-. lia.
 Qed.
 
-Lemma prod_pend_ge : forall pl i p, i <= pend_or (prod_pend pl i p) (prod_o3 pl i p).
+Lemma prod_pend_ge : forall fp pl i p, i <= pend_or (prod_pend fp pl i p) (prod_o3 pl i p).
 Proof.
-  intros pl i p. unfold prod_pend.
+  intros fp pl i p. unfold prod_pend. cbv zeta.
   assert (H0 : i <= prod_o0 pl i p) by (unfold prod_o0; lia).
   assert (H1 : i <= prod_o1 pl i p) by (unfold prod_o1; lia).
   assert (H2 : i <= prod_o2 pl i p) by (unfold prod_o2; lia).
   assert (H3 : i <= prod_o3 pl i p) by (unfold prod_o3; lia).
-  destruct (ap_action p); cbn [pend_or]; [exact H2|].
-  destruct (ap_prec p); cbn [pend_or]; [unfold prec_tok_off; lia|].
-  destruct (syms_pend pl 0 (prod_o0 pl i p) (ap_syms p)
-              (if uses_empty pl p then Some (i + byte_len kw_empty) else None)) as [x|] eqn:E; cbn [pend_or]; [|exact H3].
-  apply (syms_pend_ge pl (ap_syms p) 0 (prod_o0 pl i p)
-           (if uses_empty pl p then Some (i + byte_len kw_empty) else None) i H0) with (x := x); [|exact E].
-  intros y Hy. destruct (uses_empty pl p); [injection Hy as <-; lia | discriminate Hy].
+  set (pe1 := syms_pend pl 0 (prod_o0 pl i p) (ap_syms p)
+                (if uses_empty pl p then Some (i + byte_len kw_empty) else None)).
+  assert (Hpe1 : forall x, pe1 = Some x -> i <= x).
+  { intros x E.
+    apply (syms_pend_ge pl (ap_syms p) 0 (prod_o0 pl i p)
+             (if uses_empty pl p then Some (i + byte_len kw_empty) else None) i H0) with (x := x); [|exact E].
+    intros y Hy. destruct (uses_empty pl p); [injection Hy as <-; lia | discriminate Hy]. }
+  set (pe2 := match ap_prec p with
+              | Some t => Some (prec_tok_off pl i p + byte_len (print_tok (pq_prec pl) t))
+              | None => pe1
+              end).
+  assert (Hpe2 : forall x, pe2 = Some x -> i <= x).
+  { intros x E. unfold pe2 in E.
+    destruct (ap_prec p); [injection E as <-; unfold prec_tok_off; lia | apply Hpe1; exact E]. }
+  destruct (ap_action p).
+  - unfold brace_pend. destruct fp; [|cbn [pend_or]; exact H2].
+    destruct pe2 as [x|]; cbn [pend_or]; [apply Hpe2; reflexivity | exact H2].
+  - destruct pe2 as [x|]; cbn [pend_or]; [apply Hpe2; reflexivity | exact H3].
 Qed.
 
 Lemma prod_pre_ast_has_rule : forall pl i p a m, has_rule (prod_pre_ast pl i p a) m = has_rule a m.
@@ -585,17 +596,17 @@ Proof.
     repeat rewrite <- app_assoc. apply print_tok_item_start. exact Hq.
 Qed.
 
-Lemma rl_prods : forall fa D rl rn ps pi src pre rest i f n a g e,
+Lemma rl_prods : forall fa fp D rl rn ps pi src pre rest i f n a g e,
   ps <> [] ->
   src = pre ++ print_prods rl pi ps ++ rest -> i = byte_len pre ->
   wf_prods D rl pi ps -> tok_inv D a -> has_rule a rn = true -> item_start rest ->
   exists n',
-  sbind (rule_loop true fa src (byte_len src) (fuel_for src) (prods_steps rl pi ps + f)
+  sbind (rule_loop true fa fp src (byte_len src) (fuel_for src) (prods_steps rl pi ps + f)
                    (mkSt n a g e) rn i [] None None i None)
         (fun st j => P_ws src st j true)
-  = Done (mkSt n' (prods_eff fa rl rn pi i ps a) g e, Ok (i + byte_len (print_prods rl pi ps))).
+  = Done (mkSt n' (prods_eff fa fp rl rn pi i ps a) g e, Ok (i + byte_len (print_prods rl pi ps))).
 Proof.
-  intros fa D rl rn ps. induction ps as [|p ps IH]; intros pi src pre rest i f n a g e Hne Hs Hi Hw Hinv Hru Hr;
+  intros fa fp D rl rn ps. induction ps as [|p ps IH]; intros pi src pre rest i f n a g e Hne Hs Hi Hw Hinv Hru Hr;
     [congruence|].
   cbn [print_prods prods_steps prods_eff wf_prods] in *. destruct Hw as [Hwp Hw'].
   set (pl := r_play rl pi) in *.
@@ -606,13 +617,13 @@ Proof.
   - (* last production: ';' *)
     assert (Hs1 : src = pre ++ print_prod pl p ++ (c_semi :: pg_term pl ++ rest)) by (rewrite Hs; lsolve).
     assert (Ht : term_start (c_semi :: pg_term pl ++ rest)) by (eexists; right; reflexivity).
-    destruct (rl_prod_body fa D pl p src pre _ i (S (prods_steps rl (S pi) [] + f)) n a g e rn Hs1 Hi Hwp Hinv Ht)
+    destruct (rl_prod_body fa fp D pl p src pre _ i (S (prods_steps rl (S pi) [] + f)) n a g e rn Hs1 Hi Hwp Hinv Ht)
       as [n1 H1].
     rewrite H1. clear H1.
     assert (Hs2 : src = (pre ++ print_prod pl p) ++ c_semi :: (pg_term pl ++ rest)) by (rewrite Hs; lsolve).
     assert (Hi2 : prod_o3 pl i p = byte_len (pre ++ print_prod pl p)).
     { unfold prod_o3, prod_o2, prod_o1, prod_o0, print_prod. subst i. rewrite !byte_len_app. lia. }
-    rewrite (rl_step_semi fa _ _ _ _ _ n1 _ g e rn _ _ _ i _ Hs2 Hi2).
+    rewrite (rl_step_semi fa fp _ _ _ _ _ n1 _ g e rn _ _ _ i _ Hs2 Hi2).
     2:{ rewrite prod_pre_ast_has_rule. exact Hru. }
     2:{ apply prod_pend_ge. }
     cbn [sbind]. unfold P_ws.
@@ -628,14 +639,14 @@ Proof.
     assert (Hs1 : src = pre ++ print_prod pl p ++ (c_bar :: pg_term pl ++ print_prods rl (S pi) ps ++ rest))
       by (rewrite Hs; lsolve).
     assert (Ht : term_start (c_bar :: pg_term pl ++ print_prods rl (S pi) ps ++ rest)) by (eexists; left; reflexivity).
-    destruct (rl_prod_body fa D pl p src pre _ i (S (prods_steps rl (S pi) ps + f)) n a g e rn Hs1 Hi Hwp Hinv Ht)
+    destruct (rl_prod_body fa fp D pl p src pre _ i (S (prods_steps rl (S pi) ps + f)) n a g e rn Hs1 Hi Hwp Hinv Ht)
       as [n1 H1].
     rewrite H1. clear H1.
     assert (Hs2 : src = (pre ++ print_prod pl p) ++ c_bar :: pg_term pl ++ (print_prods rl (S pi) ps ++ rest))
       by (rewrite Hs; lsolve).
     assert (Hi2 : prod_o3 pl i p = byte_len (pre ++ print_prod pl p)).
     { unfold prod_o3, prod_o2, prod_o1, prod_o0, print_prod. subst i. rewrite !byte_len_app. lia. }
-    rewrite (rl_step_bar fa _ _ _ _ _ _ n1 _ g e rn _ _ _ i _ Hs2 Hi2 Hlt
+    rewrite (rl_step_bar fa fp _ _ _ _ _ _ n1 _ g e rn _ _ _ i _ Hs2 Hi2 Hlt
                (print_prods_item_start _ _ _ _ _ Hw' Hr)).
     2:{ rewrite prod_pre_ast_has_rule. exact Hru. }
     2:{ apply prod_pend_ge. }
@@ -644,8 +655,8 @@ Proof.
       by (rewrite Hs; lsolve).
     assert (Hi3 : prod_o3 pl i p + 1 + byte_len (pg_term pl) = byte_len (pre ++ print_prod pl p ++ c_bar :: pg_term pl)).
     { rewrite Hi2. rewrite !byte_len_app. cbn [byte_len]. change (len_utf8 c_bar) with 1. lia. }
-    destruct (IH (S pi) src _ rest _ f (n1 + count_nl (pg_term pl)) (prod_eff fa pl rn i p a) g e
-                 ltac:(discriminate) Hs3 Hi3 Hw' (prod_eff_inv _ _ _ _ _ _ _ Hinv)
+    destruct (IH (S pi) src _ rest _ f (n1 + count_nl (pg_term pl)) (prod_eff fa fp pl rn i p a) g e
+                 ltac:(discriminate) Hs3 Hi3 Hw' (prod_eff_inv _ _ _ _ _ _ _ _ Hinv)
                  ltac:(rewrite prod_eff_has_rule; exact Hru) Hr) as [n2 H2].
     exists n2. unfold prod_next. rewrite H2. f_equal. f_equal. f_equal.
     rewrite Hi3. rewrite !byte_len_app. cbn [byte_len]. rewrite !byte_len_app. subst i. lia.
@@ -712,18 +723,18 @@ Proof.
 Qed.
 
 (* from the colon on: gap, productions, the layout after the block *)
-Lemma rule_tail_at : forall fa D src pre rl r rest j n a1 g e,
+Lemma rule_tail_at : forall fa fp D src pre rl r rest j n a1 g e,
   src = pre ++ c_colon :: rg_colon rl ++ print_prods rl 0 (ar_prods r) ++ rest -> j = byte_len pre ->
   layout_text (rg_colon rl) -> ar_prods r <> [] -> wf_prods D rl 0 (ar_prods r) -> item_start rest ->
   tok_inv D a1 -> has_rule a1 (ar_name r) = true ->
   exists n',
     sbind (sbind (ws true src (byte_len src) (fuel_for src) (mkSt n a1 g e) (j + 1) true)
-                 (fun st i => rule_loop true fa src (byte_len src) (fuel_for src) (fuel_for src) st (ar_name r) i [] None None i None))
+                 (fun st i => rule_loop true fa fp src (byte_len src) (fuel_for src) (fuel_for src) st (ar_name r) i [] None None i None))
           (fun st j => P_ws src st j true)
-    = Done (mkSt n' (prods_eff fa rl (ar_name r) 0 (j + 1 + byte_len (rg_colon rl)) (ar_prods r) a1) g e,
+    = Done (mkSt n' (prods_eff fa fp rl (ar_name r) 0 (j + 1 + byte_len (rg_colon rl)) (ar_prods r) a1) g e,
             Ok (j + 1 + byte_len (rg_colon rl) + byte_len (print_prods rl 0 (ar_prods r)))).
 Proof.
-  intros fa D src pre rl r rest j n a1 g e Hs Hj Hl2 Hne Hwp Hr Hinv Hru.
+  intros fa fp D src pre rl r rest j n a1 g e Hs Hj Hl2 Hne Hwp Hr Hinv Hru.
   set (body := print_prods rl 0 (ar_prods r)) in *.
   assert (Hs3 : src = (pre ++ [c_colon]) ++ rg_colon rl ++ (body ++ rest)) by (rewrite Hs; lsolve).
   assert (Hi3 : j + 1 = byte_len (pre ++ [c_colon])) by (subst j; rewrite !byte_len_app; reflexivity).
@@ -737,27 +748,27 @@ Proof.
   { pose proof (prods_steps_le _ _ _ _ Hwp) as Hle. fold body in Hle. unfold fuel_for.
     rewrite Hs. rewrite !byte_len_app. cbn [byte_len]. rewrite !byte_len_app. lia. }
   match goal with
-  | |- context [rule_loop true fa src (byte_len src) (fuel_for src) (fuel_for src) ?st] =>
-      replace (rule_loop true fa src (byte_len src) (fuel_for src) (fuel_for src) st)
-        with (rule_loop true fa src (byte_len src) (fuel_for src)
+  | |- context [rule_loop true fa fp src (byte_len src) (fuel_for src) (fuel_for src) ?st] =>
+      replace (rule_loop true fa fp src (byte_len src) (fuel_for src) (fuel_for src) st)
+        with (rule_loop true fa fp src (byte_len src) (fuel_for src)
                 (prods_steps rl 0 (ar_prods r) + (fuel_for src - prods_steps rl 0 (ar_prods r))) st)
         by (rewrite <- Hfuel; reflexivity)
   end.
-  destruct (rl_prods fa D rl (ar_name r) (ar_prods r) 0 src _ rest _ (fuel_for src - prods_steps rl 0 (ar_prods r))
+  destruct (rl_prods fa fp D rl (ar_name r) (ar_prods r) 0 src _ rest _ (fuel_for src - prods_steps rl 0 (ar_prods r))
               (n + count_nl (rg_colon rl)) a1 g e Hne Hs4 Hi4 Hwp Hinv Hru Hr) as [n' Hn'].
   exists n'. rewrite Hn'. reflexivity.
 Qed.
 
 (* a block without action type: Original and Eco dialects *)
-Lemma rule_at_plain : forall fa D src pre rl r rest i n a g e,
+Lemma rule_at_plain : forall fa fp D src pre rl r rest i n a g e,
   src = pre ++ print_rule rl r ++ rest -> i = byte_len pre ->
   wf_rule D rl r -> ar_type r = None -> item_start rest -> tok_inv D a ->
   exists n',
-    sbind (parse_rule true fa KOriginal src (byte_len src) (fuel_for src) (mkSt n a g e) i)
+    sbind (parse_rule true fa fp KOriginal src (byte_len src) (fuel_for src) (mkSt n a g e) i)
           (fun st j => P_ws src st j true)
-    = Done (mkSt n' (rule_eff fa rl i (actiont_of g) r a) g e, Ok (i + byte_len (print_rule rl r))).
+    = Done (mkSt n' (rule_eff fa fp rl i (actiont_of g) r a) g e, Ok (i + byte_len (print_rule rl r))).
 Proof.
-  intros fa D src pre rl r rest i n a g e Hs Hi [Hn [Hl1 [Hl2 [Hne [Hwp _]]]]] Hty Hr Hinv.
+  intros fa fp D src pre rl r rest i n a g e Hs Hi [Hn [Hl1 [Hl2 [Hne [Hwp _]]]]] Hty Hr Hinv.
   unfold print_rule, print_rtype in Hs. rewrite Hty in Hs. cbn [app] in Hs.
   set (nm := ar_name r) in *. set (body := print_prods rl 0 (ar_prods r)) in *.
   assert (Hs0 : src = pre ++ nm ++ (rg_name rl ++ c_colon :: rg_colon rl ++ body ++ rest)) by (rewrite Hs; lsolve).
@@ -785,7 +796,7 @@ Proof.
   assert (Hi2 : i + byte_len nm + byte_len (rg_name rl) = byte_len ((pre ++ nm) ++ rg_name rl))
     by (subst i; rewrite !byte_len_app; reflexivity).
   look1 Hs2 Hi2. change (byte_len kw_colon) with 1.
-  destruct (rule_tail_at fa D src _ rl r rest _ (n + count_nl (rg_name rl)) a1 g e Hs2 Hi2 Hl2 Hne Hwp Hr
+  destruct (rule_tail_at fa fp D src _ rl r rest _ (n + count_nl (rg_name rl)) a1 g e Hs2 Hi2 Hl2 Hne Hwp Hr
               (tok_inv_rule_head _ _ _ _ _ Hinv) (rule_head_has_rule _ _ _ _)) as [n' Hn'].
   exists n'. fold nm in Hn'. rewrite Hn'. unfold rule_eff, rule_body_off, rule_at_, print_rtype. rewrite Hty. fold nm a1.
   f_equal. f_equal; [f_equal; f_equal; cbn [byte_len]; lia|]. f_equal.
@@ -797,15 +808,15 @@ Qed.
 Lemma arrow_not_name_cont : forall r, not_starting name_cont (kw_arrow ++ r).
 Proof. intros r. reflexivity. Qed.
 
-Lemma rule_at_typed : forall fa D src pre rl r ty rest i n a g e,
+Lemma rule_at_typed : forall fa fp D src pre rl r ty rest i n a g e,
   src = pre ++ print_rule rl r ++ rest -> i = byte_len pre ->
   wf_rule D rl r -> ar_type r = Some ty -> item_start rest -> tok_inv D a ->
   exists n',
-    sbind (parse_rule true fa KGrmtools src (byte_len src) (fuel_for src) (mkSt n a g e) i)
+    sbind (parse_rule true fa fp KGrmtools src (byte_len src) (fuel_for src) (mkSt n a g e) i)
           (fun st j => P_ws src st j true)
-    = Done (mkSt n' (rule_eff fa rl i (actiont_of g) r a) g e, Ok (i + byte_len (print_rule rl r))).
+    = Done (mkSt n' (rule_eff fa fp rl i (actiont_of g) r a) g e, Ok (i + byte_len (print_rule rl r))).
 Proof.
-  intros fa D src pre rl r ty rest i n a g e Hs Hi [Hn [Hl1 [Hl2 [Hne [Hwp Hty0]]]]] Hty Hr Hinv.
+  intros fa fp D src pre rl r ty rest i n a g e Hs Hi [Hn [Hl1 [Hl2 [Hne [Hwp Hty0]]]]] Hty Hr Hinv.
   rewrite Hty in Hty0. destruct Hty0 as [Hla [Hwt [Hpad Hits]]].
   unfold print_rule, print_rtype in Hs. rewrite Hty in Hs.
   set (nm := ar_name r) in *. set (body := print_prods rl 0 (ar_prods r)) in *.
@@ -874,7 +885,7 @@ Proof.
     by (subst i; rewrite !byte_len_app; reflexivity).
   rewrite (ws_none _ _ _ _ _ _ _ _ true Hs5 Hi5 ltac:(reflexivity)). cbn [sbind].
   look1 Hs5 Hi5. change (byte_len kw_colon) with 1.
-  destruct (rule_tail_at fa D src _ rl r rest _ (n + count_nl (rg_name rl) + count_nl (rg_arrow rl) + count_nl (ty ++ r_tpad rl))
+  destruct (rule_tail_at fa fp D src _ rl r rest _ (n + count_nl (rg_name rl) + count_nl (rg_arrow rl) + count_nl (ty ++ r_tpad rl))
               a1 g e Hs5 Hi5 Hl2 Hne Hwp Hr
               (tok_inv_rule_head _ _ _ _ _ Hinv) (rule_head_has_rule _ _ _ _)) as [n' Hn'].
   exists n'. fold nm in Hn'. rewrite Hn'. unfold rule_eff, rule_body_off, rule_at_, print_rtype. rewrite Hty. fold nm a1.
@@ -883,25 +894,25 @@ Proof.
   change (len_utf8 c_colon) with 1. change (byte_len kw_arrow) with 2. lia.
 Qed.
 
-Lemma parse_rule_eco : forall fa src len fuel st i,
-  parse_rule true fa KEco src len fuel st i = parse_rule true fa KOriginal src len fuel st i.
+Lemma parse_rule_eco : forall fa fp src len fuel st i,
+  parse_rule true fa fp KEco src len fuel st i = parse_rule true fa fp KOriginal src len fuel st i.
 Proof. reflexivity. Qed.
 
-Lemma rule_at : forall k fa D src pre rl r rest i n a g e,
+Lemma rule_at : forall k fa fp D src pre rl r rest i n a g e,
   src = pre ++ print_rule rl r ++ rest -> i = byte_len pre ->
   wf_rule D rl r -> rule_kind_ok k r -> item_start rest -> tok_inv D a ->
   exists n',
-    sbind (parse_rule true fa k src (byte_len src) (fuel_for src) (mkSt n a g e) i)
+    sbind (parse_rule true fa fp k src (byte_len src) (fuel_for src) (mkSt n a g e) i)
           (fun st j => P_ws src st j true)
-    = Done (mkSt n' (rule_eff fa rl i (actiont_of g) r a) g e, Ok (i + byte_len (print_rule rl r))).
+    = Done (mkSt n' (rule_eff fa fp rl i (actiont_of g) r a) g e, Ok (i + byte_len (print_rule rl r))).
 Proof.
-  intros k fa D src pre rl r rest i n a g e Hs Hi Hw Hk Hr Hinv.
+  intros k fa fp D src pre rl r rest i n a g e Hs Hi Hw Hk Hr Hinv.
   destruct (ar_type r) as [ty|] eqn:Ety.
   - assert (k = KGrmtools) by (apply Hk; rewrite Ety; discriminate). subst k.
-    apply (rule_at_typed fa D src pre rl r ty rest); assumption.
+    apply (rule_at_typed fa fp D src pre rl r ty rest); assumption.
   - assert (Hk' : k <> KGrmtools) by (intros E; apply Hk in E; rewrite Ety in E; congruence).
     destruct k; [ | congruence | rewrite parse_rule_eco ];
-      apply (rule_at_plain fa D src pre rl r rest); assumption.
+      apply (rule_at_plain fa fp D src pre rl r rest); assumption.
 Qed.
 
 (* ======================================================================== *)
@@ -937,14 +948,14 @@ Proof.
   apply name_start_first_ok. exact Hc.
 Qed.
 
-Lemma rules_loop_at : forall k fa D l rs r src pre rest i f n a g e,
+Lemma rules_loop_at : forall k fa fp D l rs r src pre rest i f n a g e,
   src = pre ++ print_rules l r rs ++ rest -> i = byte_len pre ->
   wf_rules D l r rs -> Forall (rule_kind_ok k) rs -> rules_end rest -> tok_inv D a -> List.length rs < f ->
   exists n',
-    rules_loop true fa k src (byte_len src) (fuel_for src) f (mkSt n a g e) i
-    = Done (mkSt n' (rules_eff fa l r i (actiont_of g) rs a) g e, Ok (i + byte_len (print_rules l r rs))).
+    rules_loop true fa fp k src (byte_len src) (fuel_for src) f (mkSt n a g e) i
+    = Done (mkSt n' (rules_eff fa fp l r i (actiont_of g) rs a) g e, Ok (i + byte_len (print_rules l r rs))).
 Proof.
-  intros k fa D l rs. induction rs as [|x rs IH]; intros r src pre rest i f n a g e Hs Hi Hw Hk He Hinv Hf.
+  intros k fa fp D l rs. induction rs as [|x rs IH]; intros r src pre rest i f n a g e Hs Hi Hw Hk He Hinv Hf.
   - destruct f as [|f]; [cbn in Hf; lia|]. cbn [print_rules app] in Hs.
     exists n. cbn [rules_loop]. destruct He as [He|[r' He]]; subst rest.
     + rewrite app_nil_r in Hs. subst pre. rewrite (not_lt_len_end _ _ Hi). cbn [negb ret print_rules byte_len rules_eff].
@@ -962,28 +973,28 @@ Proof.
     rewrite (look_at _ _ _ _ _ _ Hs0 Hi). rewrite prefix_of_hd_false by (apply name_start_not_pct; exact Hc).
     cbn [sbind is_some].
     assert (Hs1 : src = pre ++ print_rule (rlay_of l r) x ++ (print_rules l (S r) rs ++ rest)) by (rewrite Hs; lsolve).
-    destruct (rule_at k fa D src pre _ x _ i n a g e Hs1 Hi Hwr Hkx
+    destruct (rule_at k fa fp D src pre _ x _ i n a g e Hs1 Hi Hwr Hkx
                 (print_rules_item_start_app _ _ _ _ _ Hw' (rules_end_item_start _ He)) Hinv) as [n1 H1].
-    destruct (parse_rule true fa k src (byte_len src) (fuel_for src) (mkSt n a g e) i)
+    destruct (parse_rule true fa fp k src (byte_len src) (fuel_for src) (mkSt n a g e) i)
       as [[st1 [j|er]]| |] eqn:EX; cbn [sbind] in H1; try discriminate H1.
     cbn [sbind]. unfold P_ws in H1. rewrite H1. cbn [sbind].
     assert (Hs2 : src = (pre ++ print_rule (rlay_of l r) x) ++ print_rules l (S r) rs ++ rest) by (rewrite Hs; lsolve).
     assert (Hi2 : i + byte_len (print_rule (rlay_of l r) x) = byte_len (pre ++ print_rule (rlay_of l r) x))
       by (subst i; rewrite byte_len_app; reflexivity).
-    destruct (IH (S r) src _ rest _ f n1 (rule_eff fa (rlay_of l r) i (actiont_of g) x a) g e Hs2 Hi2 Hw' Hk' He
-                 (rule_eff_inv fa D _ _ _ _ _ Hinv) ltac:(lia)) as [n2 H2].
+    destruct (IH (S r) src _ rest _ f n1 (rule_eff fa fp (rlay_of l r) i (actiont_of g) x a) g e Hs2 Hi2 Hw' Hk' He
+                 (rule_eff_inv fa fp D _ _ _ _ _ Hinv) ltac:(lia)) as [n2 H2].
     exists n2. rewrite H2. f_equal. f_equal. f_equal. rewrite byte_len_app. lia.
 Qed.
 
-Lemma rules_section_at : forall k fa D l src pre gap rs rest i n a g e,
+Lemma rules_section_at : forall k fa fp D l src pre gap rs rest i n a g e,
   src = pre ++ kw_pp ++ gap ++ print_rules l 0 rs ++ rest -> i = byte_len pre ->
   layout_text gap -> wf_rules D l 0 rs -> Forall (rule_kind_ok k) rs -> rules_end rest -> tok_inv D a ->
   exists n',
-    parse_rules true fa k src (byte_len src) (fuel_for src) (mkSt n a g e) i
-    = Done (mkSt n' (rules_eff fa l 0 (i + 2 + byte_len gap) (actiont_of g) rs a) g e,
+    parse_rules true fa fp k src (byte_len src) (fuel_for src) (mkSt n a g e) i
+    = Done (mkSt n' (rules_eff fa fp l 0 (i + 2 + byte_len gap) (actiont_of g) rs a) g e,
             Ok (i + 2 + byte_len gap + byte_len (print_rules l 0 rs))).
 Proof.
-  intros k fa D l src pre gap rs rest i n a g e Hs Hi Hl Hw Hk He Hinv.
+  intros k fa fp D l src pre gap rs rest i n a g e Hs Hi Hl Hw Hk He Hinv.
   unfold parse_rules. look1 Hs Hi. change (byte_len kw_pp) with 2.
   assert (Hs1 : src = (pre ++ kw_pp) ++ gap ++ (print_rules l 0 rs ++ rest)) by (rewrite Hs; lsolve).
   assert (Hi1 : i + 2 = byte_len (pre ++ kw_pp)) by (subst i; rewrite byte_len_app; reflexivity).
@@ -1000,6 +1011,6 @@ Proof.
       destruct (print_rule_hd (rlay_of l r) x Hn) as [c [t [E _]]].
       rewrite byte_len_app, E. cbn [byte_len]. pose proof (len_utf8_pos c). specialize (IH _ Hw'). lia. }
     specialize (Hle rs 0 Hw). lia. }
-  destruct (rules_loop_at k fa D l rs 0 src _ rest _ (fuel_for src) (n + count_nl gap) a g e Hs2 Hi2 Hw Hk He Hinv Hlen) as [n' Hn'].
+  destruct (rules_loop_at k fa fp D l rs 0 src _ rest _ (fuel_for src) (n + count_nl gap) a g e Hs2 Hi2 Hw Hk He Hinv Hlen) as [n' Hn'].
   exists n'. rewrite Hn'. reflexivity.
 Qed.
